@@ -774,6 +774,13 @@ def run(ctx):
         part = None
     if part is not None:
         part.run_part(ctx)
+    # the declarative-specification half (axes / steps / paths = the Recommendation; props/C02_spec.py)
+    try:
+        spec_part = importlib.import_module("props.C02_spec")
+    except ImportError:
+        spec_part = None
+    if spec_part is not None:
+        spec_part.run_part(ctx)
     # the extension-function half (EXSLT, xalan:, id(), ...): built as its own family (props/C02_ext.py)
     if os.path.exists(os.path.join(core.VERIF, "props", "C02_ext.py")) and os.path.exists(os.path.join(core.VERIF, "props", "C02_ext.enabled")):
         importlib.import_module("props.C02_ext").run_part(ctx)
